@@ -932,7 +932,8 @@ func ruleC09OwnCommandObject(c *Ctx) {
 					continue
 				}
 				isOwn := func(v ssa.Value) bool { _, fld := loadedField(v); return fld == fDs }
-				if !((bo.X == ds && isOwn(bo.Y)) || (bo.Y == ds && isOwn(bo.X))) {
+				isDs := func(v ssa.Value) bool { return v == ds || sameValue(v, ds) } // the iterator's current element read twice
+				if !((isDs(bo.X) && isOwn(bo.Y)) || (isDs(bo.Y) && isOwn(bo.X))) {
 					continue
 				}
 				for i, s := range d.Succs {
